@@ -119,7 +119,7 @@ def shifted(F0, mx, k):
 
 
 def loop_inv(v):
-    rev = v.logs.seq
+    rev = v._seq.seq  # the list the loop walks (whatever the code calls it)
     i = core.num_term(v._i)
     mx = v.self.maxRotatedFiles
     F, F0 = v.F, v.F0
